@@ -60,7 +60,7 @@ def handle (toks : List String) : Option String :=
     pure s!"ok {toUsize b}"
   | ["optaddr", tag, h] => do
     let v ← Hex.toBytes h
-    let N : PodOption.Nullable Bytes := ⟨Bytes.zeros 32⟩
+    let N := PodOption.addrN
     let o : Option Bytes := if tag = "some" then some v else none
     let got := PodOption.get N v
     let tr := match PodOption.tryFrom N o with
@@ -71,7 +71,7 @@ def handle (toks : List String) : Option String :=
     pure s!"get={g} try={tr} mem={Hex.ofBytes (PodOption.wrap v)} json_null={jn} de={de} bin={de}"
   | ["optu64", tag, n] => do
     let n ← n.toNat?
-    let N : PodOption.Nullable Nat := ⟨0⟩
+    let N := PodOption.u64N
     let o : Option Nat := if tag = "some" then some n else none
     let got := PodOption.get N n
     let enc := fun (x : Nat) => Hex.ofBytes (toLe 8 x)
